@@ -577,6 +577,18 @@ func (r *runner) seedRun(target string, tr *targetResult) {
 	hangs := r.failReports(rep, "seed corpus")
 	for _, h := range hangs {
 		r.confirmHang(h, "seed corpus")
+		// A seed that does not return would also stop the engine while it gathers
+		// baseline coverage: it has been judged here, so it is set aside.
+		dir := filepath.Join(r.work, "testdata", "fuzz", target)
+		es, _ := os.ReadDir(dir)
+		for _, e := range es {
+			if b, err := os.ReadFile(filepath.Join(dir, e.Name())); err == nil && string(b) == h.Corpus {
+				aside := filepath.Join(c.Scratch, "crashers", target)
+				_ = os.MkdirAll(aside, 0o755)
+				_ = os.Rename(filepath.Join(dir, e.Name()), filepath.Join(aside, "seed-"+e.Name()))
+				c.Count("seeds_set_aside_after_watchdog", 1)
+			}
+		}
 	}
 	if res.code != 0 && len(hangs) == 0 {
 		if key, msg, stack := classifyCrash(target, res.out); key != "" {
